@@ -12,7 +12,7 @@
    reflect.DeepEqual over a Backend / Host is structural equality of one digest per
    struct field (`b_cfg`, `h_cfg`: position i = i-th field of the Go struct, names in
    `backend_fields` / `host_fields`); the harness computes the digests from the real
-   objects. Line numbers refer to dynupdate.go. *)
+   objects. Comments name the Go functions and quote the statements modelled. *)
 From Coq Require Import List String Ascii Bool Arith ZArith NArith DecimalString Decimal.
 Import ListNotations.
 Open Scope string_scope.
@@ -103,7 +103,7 @@ Fixpoint cfg_eq_except (names : list string) (blank : list string) (a b : list N
   | _, _, _ => false
   end.
 
-(* lines 210-214: oldBackCopy.{ID,Dynamic,Endpoints} = curBack's; DeepEqual *)
+(* checkBackendPair: oldBackCopy.{ID,Dynamic,Endpoints} = curBack's; reflect.DeepEqual(&oldBackCopy, curBack) *)
 Definition pair_blank : list string := ["ID"; "Dynamic"; "Endpoints"].
 Definition back_cfg_equal (old cur : backend) : bool :=
   cfg_eq_except backend_fields pair_blank (b_cfg old) (b_cfg cur).
@@ -141,7 +141,7 @@ Definition render_cmd (c : cmd) : string :=
 Definition contains (sub s : string) : bool :=
   match index 0 sub s with Some _ => true | None => false end.
 
-(* cmdResponseOK (lines 476-485) *)
+(* cmdResponseOK *)
 Definition set_server_ok (m : string) : bool :=
   (m =? "") || prefix "IP changed from " m || prefix "no need to change " m.
 Definition commit_ok (m : string) : bool := contains "Success" m.
@@ -175,7 +175,7 @@ Definition exec_enable id c := set_server_group (enable_cmds id c).
 
 (* ------------------------------------------------------------------ checkBackendPair *)
 
-(* checkEndpointPair (lines 313-331); cur already carries the slot name *)
+(* checkEndpointPair; cur already carries the slot name *)
 Definition check_endpoint_pair (id : string) (preserve : bool) (o c : endpoint)
            (resp : nat -> answer) (n : nat) : bool * list cmd :=
   if ep_eqb (set_srcip o (ep_srcip c)) c then (true, [])
@@ -200,7 +200,8 @@ Fixpoint has_dup (l : list string) : bool :=
 Definition dup_target (eps : list endpoint) : bool :=
   has_dup (map ep_target (filter ep_enabled eps)).
 
-(* lines 264-292 as far as the choice of slots goes: every enabled old endpoint, in sorted
+(* checkBackendPair, `for _, endpoint := range curBack.Endpoints` and `for _, target := range targets`,
+   as far as the choice of slots goes: every enabled old endpoint, in sorted
    target order, keeps the new endpoint with its target, else takes the next added one, else
    is vacated. Returns the (old, new?) pairs and the added endpoints left over. *)
 Fixpoint pair_loop (sorted_old cur added : list endpoint) : list (endpoint * option endpoint) * list endpoint :=
@@ -232,7 +233,7 @@ Definition rename (ps : list (endpoint * option endpoint)) (fs : list (endpoint 
   | None => match slot_of_fills (ep_target c) fs with Some n => set_name c n | None => c end
   end.
 
-(* lines 277-292: socket work of the loop over the sorted targets *)
+(* checkBackendPair, socket work of the loop over the sorted targets *)
 Fixpoint exec_pairs (id : string) (preserve : bool) (ps : list (endpoint * option endpoint))
          (resp : nat -> answer) (n : nat) : bool * list cmd :=
   match ps with
@@ -247,7 +248,7 @@ Fixpoint exec_pairs (id : string) (preserve : bool) (ps : list (endpoint * optio
     (ok && ok', (w ++ w')%list)
   end.
 
-(* lines 293-303: added endpoints take the empty slots *)
+(* checkBackendPair, `for i := range added`: added endpoints take the empty slots *)
 Fixpoint exec_fills (id : string) (preserve : bool) (fs : list (endpoint * endpoint))
          (resp : nat -> answer) (n : nat) : bool * list cmd :=
   match fs with
@@ -261,7 +262,8 @@ Fixpoint exec_fills (id : string) (preserve : bool) (fs : list (endpoint * endpo
       (ok && (ep_label c =? "") && ok', (w ++ w')%list)
   end.
 
-(* lines 305-308 (repaired): the remaining empty slots are copied, name and cookie value *)
+(* checkBackendPair, `for i := len(added); i < len(empty); i++` (as repaired): the remaining empty
+   slots are copied, name and cookie value *)
 Fixpoint copy_empties (initw : Z) (rest : list endpoint) (eps : list endpoint) : list endpoint :=
   match rest with
   | [] => eps
@@ -274,12 +276,12 @@ Record pair_result := mkR {
   r_updated : bool;            (* what checkBackendPair returns *)
   r_cmds : list cmd;           (* commands written to the socket, in order *)
   r_eps : list endpoint;       (* curBack.Endpoints afterwards *)
-  r_panic : bool }.            (* empty[i] out of range at line 295 *)
+  r_panic : bool }.            (* `empty[i]` out of range in `for i := range added` *)
 
 Definition vacated (ps : list (endpoint * option endpoint)) : list endpoint :=
   map fst (filter (fun p => match snd p with None => true | Some _ => false end) ps).
 
-(* checkBackendPair (lines 198-311) *)
+(* checkBackendPair *)
 Definition check_backend_pair (old cur : backend) (resp : nat -> answer) : pair_result :=
   let upd0 := back_cfg_equal old cur in
   if (List.length (b_eps old) <? List.length (b_eps cur))%nat then mkR false [] (b_eps cur) false
@@ -307,7 +309,7 @@ Definition check_backend_pair (old cur : backend) (resp : nat -> answer) : pair_
 
 Definition count_empty (eps : list endpoint) : nat := List.length (filter is_empty eps).
 
-(* alignSlots (lines 333-380), one backend *)
+(* alignSlots, one backend *)
 Definition align_slots (b : backend) : list endpoint :=
   if negb (b_dyn b) then b_eps b
   else
@@ -356,7 +358,7 @@ Definition host_cfg_equal (old cur : host) : bool :=
 (* Hosts.Shrink: DeepEqual of the whole object *)
 Definition host_same (old cur : host) : bool := cfg_eq_except host_fields [] (h_cfg old) (h_cfg cur).
 
-(* execUpdateCert (lines 384-415): only the answer to `commit ssl cert` is validated *)
+(* execUpdateCert: only the answer to `commit ssl cert` is validated *)
 Definition exec_update_cert (h : host) (resp : nat -> answer) (n : nat) : bool * list cmd :=
   match h_content h with
   | None => (false, [])
@@ -365,7 +367,7 @@ Definition exec_update_cert (h : host) (resp : nat -> answer) (n : nat) : bool *
     (negb e && commit_ok (nth 1 m ""), w)
   end.
 
-(* checkHostPair (lines 172-196) *)
+(* checkHostPair *)
 Definition check_host_pair (old cur : host) (resp : nat -> answer) : bool * list cmd :=
   let upd0 := host_cfg_equal old cur in
   if negb (h_file cur =? "") && negb (h_hash old =? h_hash cur) && (h_file old =? h_file cur) then
@@ -379,7 +381,7 @@ Record hpair := mkHP { hp_old : option host; hp_cur : host; hp_resp : nat -> ans
 
 Record bres := mkBR { br_shrunk : bool; br_updated : bool; br_cmds : list cmd; br_eps : list endpoint; br_panic : bool }.
 
-(* Backends.Shrink, then backendUpdated for one ItemsAdd backend (lines 140-170) *)
+(* Backends.Shrink, then backendUpdated for one ItemsAdd backend *)
 Definition backend_step (run_dyn : bool) (p : bpair) : bres :=
   match bp_old p with
   | None => mkBR false false [] (b_eps (bp_cur p)) false           (* added backend *)
@@ -406,7 +408,7 @@ Record step_in := mkSI {
   si_committed : bool;       (* config.hasCommittedData() *)
   si_other_changed : bool;   (* global / tcp backends / tcp services / frontend / userlists differ *)
   si_host_removed : bool;    (* an ItemsDel host without an ItemsAdd one *)
-  si_back_removed : bool;    (* an ItemsDel backend without an ItemsAdd one (lines 164-168) *)
+  si_back_removed : bool;    (* an ItemsDel backend without an ItemsAdd one: backendUpdated, `pair.cur == nil` *)
   si_hosts : list hpair;     (* ItemsAdd hosts, with the ItemsDel one of the same name *)
   si_backs : list bpair;     (* ItemsAdd backends, with the ItemsDel one of the same id *)
   si_others : list backend   (* the other backends of Items() *) }.
@@ -417,7 +419,7 @@ Record step_out := mkSO {
   so_hosts : list hres;
   so_others : list (list endpoint) }.
 
-(* dynUpdater.update (lines 65-72) with checkConfigChange; instance.HAProxyUpdate reloads iff
+(* dynUpdater.update with checkConfigChange; instance.HAProxyUpdate reloads iff
    it returns false *)
 Definition step (s : step_in) : step_out :=
   let run := si_committed s in
